@@ -184,7 +184,7 @@ fn record(ctx: &Ctx, which: Which, st: &Stats, family: &str, input: &[u8]) {
     for (w, clause, msg) in vs {
         if w == which {
             let site = site_for(clause, input);
-            ctx.violation(clause, &site, family, json!({"kind":"bytes","family":family,"len":input.len(),"hex":hex_trunc(input, 4096),"message":msg}));
+            ctx.violation(clause, &site, family, json!({"kind":"bytes","family":family,"len":input.len(),"hex":hex_trunc(input, 4096),"log_level":format!("{}", log::max_level()),"message":msg}));
         }
     }
 }
@@ -339,6 +339,57 @@ fn family_deviations(ctx: &Ctx, which: Which, st: &Stats, two: bool) -> u64 {
 }
 
 /// truncations and extensions of the corpus (every length quick: 4-byte steps; thorough: every byte)
+/// Every offset word of the multi-tag corpus messages swept over every aligned value from 0 to a
+/// little past the whole message length (the window between the value-area length and the message
+/// length is where a bounds check against the wrong length goes wrong), and every PAIR of offset
+/// words over a coarse grid (decreasing, equal, past-the-end combinations).
+fn family_offset_grids(ctx: &Ctx, which: Which, st: &Stats) -> u64 {
+    let mut n = 0u64;
+    for (name, base) in corpus() {
+        if base.len() > 4096 {
+            continue;
+        }
+        let cnt = if base.len() >= 4 { u32::from_le_bytes([base[0], base[1], base[2], base[3]]) as usize } else { 0 };
+        if cnt < 2 || cnt > 18 || base.len() < codec::header_len(cnt) {
+            continue;
+        }
+        let noff = cnt - 1;
+        let len = base.len();
+        let area = len - codec::header_len(cnt);
+        let fam = format!("offset-grid:{}", name);
+        for w in 0..noff {
+            let mut v = 0usize;
+            while v <= len + 16 {
+                let mut b = base.clone();
+                b[4 + 4 * w..8 + 4 * w].copy_from_slice(&(v as u32).to_le_bytes());
+                record(ctx, which, st, &fam, &b);
+                n += 1;
+                v += 4;
+            }
+        }
+        let grid: Vec<usize> = {
+            let mut g = vec![0, 4, 8, 12, 32, 64, area.saturating_sub(4), area, area + 4, area + 8, len.saturating_sub(4), len, len + 4];
+            g.sort();
+            g.dedup();
+            g
+        };
+        for w1 in 0..noff {
+            for w2 in w1 + 1..noff {
+                for &a in &grid {
+                    for &c in &grid {
+                        let mut b = base.clone();
+                        b[4 + 4 * w1..8 + 4 * w1].copy_from_slice(&(a as u32).to_le_bytes());
+                        b[4 + 4 * w2..8 + 4 * w2].copy_from_slice(&(c as u32).to_le_bytes());
+                        record(ctx, which, st, &fam, &b);
+                        n += 1;
+                    }
+                }
+            }
+        }
+    }
+    n
+}
+
 fn family_truncations(ctx: &Ctx, which: Which, st: &Stats, every_byte: bool) -> u64 {
     let mut total = 0;
     for (_, base) in corpus() {
@@ -583,6 +634,7 @@ pub fn run(ctx: &Ctx, which: Which) -> Result<(), String> {
     let st = Stats::new();
     let l = ctx.tier.pick(5, 6);
     let mut fam = serde_json::Map::new();
+    crate::inproc::init();
     // determinism self-test: the same input judged twice gives the same class
     {
         let b = words_to_bytes(&[2, 4, u32::from_le_bytes(codec::tag("NONC")), u32::from_le_bytes(codec::tag("PAD")), 7, 8]);
@@ -592,28 +644,43 @@ pub fn run(ctx: &Ctx, which: Which) -> Result<(), String> {
             return Err(format!("self-test: valid two-tag message judged {} / {}", a1.0, a2.0));
         }
     }
-    if which == Which::C05 {
-        fam.insert("api_subsets_x_patterns".into(), json!(family_api(ctx, &st, ctx.tier == Tier::Thorough)));
-    }
-    fam.insert(format!("words_len_1_to_{}", l), json!(family_words(ctx, which, &st, l)));
-    fam.insert("short_bytes_len_0_to_11".into(), json!(family_short_bytes(ctx, which, &st, ctx.tier.pick(9, 11))));
-    fam.insert("header_word_deviations".into(), json!(family_deviations(ctx, which, &st, ctx.tier == Tier::Thorough)));
-    fam.insert("truncations_extensions".into(), json!(family_truncations(ctx, which, &st, ctx.tier == Tier::Thorough)));
+    // Decoding and formatting evaluate log statements only when a logger is installed and the level
+    // enables them (the server and kms binaries install one at Info): every family runs with the
+    // capturing logger at Trace (all log arguments are formatted) and with logging off. Thorough:
+    // the full bounds at Trace, the quick bounds with logging off.
     let mut caps_hit = vec![];
-    if which == Which::C06 {
-        fam.insert("every_length_x4_fills".into(), json!(family_lengths(ctx, &st, ctx.tier == Tier::Thorough)));
-        let depths: Vec<usize> = match ctx.tier {
-            Tier::Quick => vec![1, 2, 3, 8, 64, 512, 1024],
-            Tier::Thorough => (1..=128).chain([192, 256, 384, 512, 768, 1024, 1536, 2048, 3072, 4096, 8191]).collect(),
-        };
-        let (n, caps) = family_depth(ctx, &st, &depths, ctx.tier.pick(40, 900));
-        fam.insert("nesting_depth_x4_variants".into(), json!(n));
-        if caps > 0 {
-            caps_hit.push(format!("{} nesting-depth case(s) exceeded the per-case wall cap and were not judged", caps));
+    let thorough = ctx.tier == Tier::Thorough;
+    for (level, full) in [(log::LevelFilter::Trace, thorough), (log::LevelFilter::Off, false)] {
+        crate::inproc::set_level(level);
+        let sfx = if level == log::LevelFilter::Off { "@log-off" } else { "@log-trace" };
+        let l = if full { 6 } else { 5 };
+        if which == Which::C05 {
+            fam.insert(format!("api_subsets_x_patterns{}", sfx), json!(family_api(ctx, &st, full)));
         }
-        ctx.cov("depths", json!({"max": depths.iter().max(), "count": depths.len()}));
-        ctx.assume("nesting-depth family formats on a thread with an 8 MiB stack (the platform's default main-thread stack)");
+        fam.insert(format!("words_len_1_to_{}{}", l, sfx), json!(family_words(ctx, which, &st, l)));
+        fam.insert(format!("short_bytes_len_0_to_11{}", sfx), json!(family_short_bytes(ctx, which, &st, if full { 11 } else { 9 })));
+        fam.insert(format!("header_word_deviations{}", sfx), json!(family_deviations(ctx, which, &st, full)));
+        fam.insert(format!("offset_grids{}", sfx), json!(family_offset_grids(ctx, which, &st)));
+        fam.insert(format!("truncations_extensions{}", sfx), json!(family_truncations(ctx, which, &st, full)));
+        if which == Which::C06 {
+            fam.insert(format!("every_length_x4_fills{}", sfx), json!(family_lengths(ctx, &st, full)));
+            if level == log::LevelFilter::Trace {
+                let depths: Vec<usize> = match ctx.tier {
+                    Tier::Quick => vec![1, 2, 3, 8, 64, 512, 1024],
+                    Tier::Thorough => (1..=128).chain([192, 256, 384, 512, 768, 1024, 1536, 2048, 3072, 4096, 8191]).collect(),
+                };
+                let (n, caps) = family_depth(ctx, &st, &depths, ctx.tier.pick(40, 900));
+                fam.insert("nesting_depth_x4_variants".into(), json!(n));
+                if caps > 0 {
+                    caps_hit.push(format!("{} nesting-depth case(s) exceeded the per-case wall cap and were not judged", caps));
+                }
+                ctx.cov("depths", json!({"max": depths.iter().max(), "count": depths.len()}));
+                ctx.assume("nesting-depth family formats on a thread with an 8 MiB stack (the platform's default main-thread stack)");
+            }
+        }
     }
+    crate::inproc::set_level(log::LevelFilter::Off);
+    ctx.cov("log_records_formatted", json!(crate::inproc::LOG_RECORDS.load(Relaxed)));
     ctx.cov("evaluations", json!(st.evals.load(Relaxed)));
     ctx.cov("distinct_nontrivial", json!(st.nontrivial.load(Relaxed)));
     ctx.cov("accepted_nonempty", json!(st.accepted.load(Relaxed)));
@@ -639,6 +706,7 @@ pub fn replay_case(c: &Value, which: Which) -> Result<Option<String>, String> {
                 return Err("input was truncated in the replay file".into());
             }
             let b = rtref::crypto::unhex(h);
+            crate::inproc::set_level(log::LevelFilter::Trace);
             let (_, vs) = judge(&b, true);
             Ok(vs.into_iter().find(|v| v.0 == which).map(|v| format!("{} {}", v.1, v.2)))
         }
